@@ -23,6 +23,39 @@ pub enum Op {
     Data(Vec<u8>),
     Stream { script: Vec<REv>, scribble: bool, sticky: bool, tail: u32 },
     File { spec: FileSpec },
+    /// `hash_file` on an object of the *real* file system built from the
+    /// current payload (not simulated: see `real_step`).
+    Real { kind: RealKind },
+}
+
+/// Objects of the real file system whose metadata size disagrees with what
+/// they deliver, or which cannot be opened / read.
+#[derive(Clone, Debug, PartialEq)]
+pub enum RealKind {
+    /// A path that does not exist.
+    Missing,
+    /// A directory.
+    Dir,
+    /// A procfs entry (metadata size 0, non-empty content).
+    Proc(u8),
+    /// A named pipe fed by a writer thread in `chunk`-byte writes (metadata size 0).
+    Fifo { chunk: u32 },
+    /// An ordinary file holding the payload (consistent: logged, not judged).
+    Regular,
+}
+
+const PROC_PATHS: [&str; 4] = ["/proc/self/status", "/proc/self/maps", "/proc/cpuinfo", "/proc/meminfo"];
+
+impl RealKind {
+    fn name(&self) -> &'static str {
+        match self {
+            RealKind::Missing => "missing",
+            RealKind::Dir => "dir",
+            RealKind::Proc(_) => "procfs",
+            RealKind::Fifo { .. } => "fifo",
+            RealKind::Regular => "regular",
+        }
+    }
 }
 
 impl Op {
@@ -37,6 +70,15 @@ impl Op {
                 ("tail", J::u(*tail as u64)),
             ]),
             Op::File { spec } => J::obj(vec![("op", J::s("hash_file")), ("file", spec.to_json())]),
+            Op::Real { kind } => {
+                let mut v = vec![("op", J::s("hash_real_file")), ("kind", J::s(kind.name()))];
+                match kind {
+                    RealKind::Proc(i) => v.push(("which", J::u(*i as u64))),
+                    RealKind::Fifo { chunk } => v.push(("chunk", J::u(*chunk as u64))),
+                    _ => {}
+                }
+                J::obj(v)
+            }
         }
     }
     pub fn from_json(j: &J) -> Result<Op, String> {
@@ -55,6 +97,16 @@ impl Op {
                 }
             }
             "hash_file" => Op::File { spec: FileSpec::from_json(j.get("file").ok_or("file missing")?)? },
+            "hash_real_file" => Op::Real {
+                kind: match j.gs("kind")? {
+                    "missing" => RealKind::Missing,
+                    "dir" => RealKind::Dir,
+                    "procfs" => RealKind::Proc(j.gu("which")? as u8),
+                    "fifo" => RealKind::Fifo { chunk: (j.gu("chunk")? as u32).max(1) },
+                    "regular" => RealKind::Regular,
+                    k => return Err(format!("bad real file kind {}", k)),
+                },
+            },
             o => return Err(format!("bad io op {}", o)),
         })
     }
@@ -110,6 +162,7 @@ impl Op {
                     v.push(Op::File { spec: sp });
                 }
             }
+            Op::Real { .. } => {}
         }
         v
     }
@@ -191,6 +244,7 @@ pub fn execute(ops: &[Op], verbose: bool) -> Outcome {
                 Op::Data(_) => "data",
                 Op::Stream { .. } => "hash_stream",
                 Op::File { .. } => "hash_file",
+                Op::Real { .. } => "hash_file(real)",
             };
             cx.fail("C18.no_panic", format!("panic:{}", name), format!("operation panicked: {}", msg));
             cx.ev_std(format_args!("panic in {}", name));
@@ -210,6 +264,26 @@ fn step(cx: &mut Ctx, data: &mut Vec<u8>, op: &Op) {
         }
         Op::Stream { script, scribble, sticky, tail } => {
             let mut rd = SimReader::new(data, script, *scribble, *sticky).with_tail(*tail);
+            if script.iter().any(|e| matches!(e, REv::Panic)) {
+                // A reader that panics inside read(), contained by the caller.
+                // The unwound call itself is not judged; the executions that
+                // follow on this thread are, as usual.
+                match guarded(|| ssdeep::hash_stream(&mut rd)) {
+                    Err(msg) if msg.contains(crate::reader::READER_PANIC) => {
+                        cx.probe("fault.fired.reader_panic");
+                        cx.ev_std(format_args!("hash_stream delivered={} reader panicked -> unwound", rd.trace.delivered));
+                    }
+                    Err(msg) => {
+                        cx.fail("C18.no_panic", "panic:hash_stream", format!("operation panicked: {}", msg));
+                        cx.ev_std(format_args!("panic in hash_stream"));
+                    }
+                    Ok(got) => {
+                        cx.probe("io.reader_panic_not_reached");
+                        cx.ev_std(format_args!("hash_stream delivered={} (scripted reader panic not reached) -> {}", rd.trace.delivered, show(&got)));
+                    }
+                }
+                return;
+            }
             let got = ssdeep::hash_stream(&mut rd);
             let tr = rd.trace.clone();
             let runaway = rd.runaway;
@@ -233,6 +307,7 @@ fn step(cx: &mut Ctx, data: &mut Vec<u8>, op: &Op) {
             fault_probe(cx, &tr);
             judge_reads(cx, "hash_stream", data, script, &tr, runaway, &got, None);
         }
+        Op::Real { kind } => real_step(cx, data, kind),
         Op::File { spec } => {
             let fr = run_hash_file(data, spec);
             cx.ev_std(format_args!(
@@ -250,6 +325,14 @@ fn step(cx: &mut Ctx, data: &mut Vec<u8>, op: &Op) {
                 show(&fr.result)
             ));
             cx.probe("io.file_exec");
+            if spec.script.iter().any(|e| matches!(e, REv::Panic)) {
+                match &fr.panic {
+                    Some(msg) if msg.contains(crate::reader::READER_PANIC) => cx.probe("fault.fired.reader_panic"),
+                    Some(msg) => cx.fail("C18.no_panic", "panic:hash_file", format!("hash_file panicked: {}", msg)),
+                    None => cx.probe("io.reader_panic_not_reached"),
+                }
+                return;
+            }
             cx.probe_n("sim.bytes_delivered_by_readers", fr.trace.delivered as u64);
             if fr.panic.is_some() && (spec.open.is_err() || spec.meta.is_err() || matches!(spec.meta, Ok(x) if x > MAX)) {
                 cx.fail("C18.no_panic", "panic:hash_file", format!("hash_file panicked: {}", fr.panic.clone().unwrap_or_default()));
@@ -318,6 +401,133 @@ fn step(cx: &mut Ctx, data: &mut Vec<u8>, op: &Op) {
                 return;
             }
             judge_reads(cx, "hash_file", data, &spec.script, &fr.trace, fr.runaway, &fr.result, Some(m));
+        }
+    }
+}
+
+/// `hash_file` on the **real** file system (hook H1 falls through when no
+/// opener is installed).  This is not simulation: the kernel decides the read
+/// sizes of the pipe and the content of procfs.  It is here because a seam can
+/// be bypassed -- code that consults the file system by another route (the
+/// path, the file type) never meets the simulated file -- and because the
+/// statement names these objects: "files whose metadata size disagrees with
+/// their content (e.g. procfs entries), missing files, directories".  Only the
+/// outcome class is judged (an error, never a hash), which does not depend on
+/// the uncontrolled schedule; all lines are local.
+fn real_step(cx: &mut Ctx, data: &[u8], kind: &RealKind) {
+    use std::sync::atomic::{AtomicU64, Ordering};
+    static COUNTER: AtomicU64 = AtomicU64::new(0);
+    if cfg!(miri) {
+        return;
+    }
+    let dir = match std::env::current_exe().ok().and_then(|p| p.parent().map(|d| d.join("rfs-tmp"))) {
+        Some(d) => d,
+        None => {
+            cx.probe("rfs.no_scratch_dir");
+            return;
+        }
+    };
+    if std::fs::create_dir_all(&dir).is_err() {
+        cx.probe("rfs.no_scratch_dir");
+        return;
+    }
+    let path = dir.join(format!("{}-{}", std::process::id(), COUNTER.fetch_add(1, Ordering::Relaxed)));
+    let run = |p: &std::path::Path| guarded(|| ssdeep::hash_file(p));
+    let judge = |cx: &mut Ctx, check: &'static str, what: &str, got: Result<Result<RawFuzzyHash, GeneratorOrIOError>, String>| {
+        cx.probe("io.real_file_exec");
+        match got {
+            Err(msg) => {
+                cx.ev(false, format_args!("hash_file(real {}) panicked", what));
+                cx.fail("C18.no_panic", format!("panic:hash_file:real:{}", what), format!("hash_file panicked on a real {}: {}", what, msg));
+            }
+            Ok(Ok(h)) => {
+                cx.ev(false, format_args!("hash_file(real {}) -> Ok({})", what, h));
+                cx.fail(check, format!("realfs:{}", what), format!("hash_file on a real {} returned the hash {} instead of an error", what, h));
+            }
+            Ok(Err(e)) => {
+                cx.ev(false, format_args!("hash_file(real {}) -> {}", what, show(&Err(e))));
+            }
+        }
+    };
+    match kind {
+        RealKind::Missing => {
+            cx.probe("fault.fired.real_missing_file");
+            let got = run(&path);
+            judge(cx, "C18.file_open_err", "missing file", got);
+        }
+        RealKind::Dir => {
+            if std::fs::create_dir(&path).is_err() {
+                cx.probe("rfs.setup_failed");
+                return;
+            }
+            cx.probe("fault.fired.real_directory");
+            let got = run(&path);
+            let _ = std::fs::remove_dir(&path);
+            judge(cx, "C18.no_hash_on_error", "directory", got);
+        }
+        RealKind::Proc(i) => {
+            let p = std::path::Path::new(PROC_PATHS[*i as usize % PROC_PATHS.len()]);
+            let len = std::fs::metadata(p).map(|m| m.len()).ok();
+            let content = std::fs::read(p).map(|v| v.len()).unwrap_or(0);
+            if len != Some(0) || content == 0 {
+                cx.probe("rfs.procfs_unavailable");
+                return;
+            }
+            cx.probe("fault.fired.real_procfs_entry");
+            let got = run(p);
+            judge(cx, "C18.file_mismatch_err", "procfs entry", got);
+        }
+        RealKind::Fifo { chunk } => {
+            use std::io::Write;
+            use std::os::unix::fs::OpenOptionsExt;
+            // at most half the pipe capacity: the writer can never block in write
+            let payload: Vec<u8> = data[..data.len().min(32768)].to_vec();
+            if payload.is_empty() {
+                cx.probe("rfs.fifo_empty_payload");
+                return;
+            }
+            let made = std::process::Command::new("mkfifo").arg(&path).status().map(|s| s.success()).unwrap_or(false);
+            if !made {
+                cx.probe("rfs.mkfifo_unavailable");
+                return;
+            }
+            let chunk = (*chunk).max(1) as usize;
+            let wpath = path.clone();
+            let writer = std::thread::spawn(move || {
+                // blocks until a reader opens the pipe
+                if let Ok(mut f) = std::fs::OpenOptions::new().write(true).open(&wpath) {
+                    for c in payload.chunks(chunk) {
+                        if f.write_all(c).is_err() {
+                            break;
+                        }
+                    }
+                }
+            });
+            cx.probe("fault.fired.real_fifo");
+            let got = run(&path);
+            // release the writer if hash_file never opened the pipe (O_NONBLOCK: cannot block)
+            let unblock = std::fs::OpenOptions::new().read(true).custom_flags(0o4000).open(&path);
+            let _ = writer.join();
+            drop(unblock);
+            let _ = std::fs::remove_file(&path);
+            judge(cx, "C18.file_mismatch_err", "fifo", got);
+        }
+        RealKind::Regular => {
+            if std::fs::write(&path, data).is_err() {
+                cx.probe("rfs.setup_failed");
+                return;
+            }
+            let got = run(&path);
+            let _ = std::fs::remove_file(&path);
+            cx.probe("io.real_file_exec");
+            match (&got, reference(data)) {
+                (Ok(Ok(a)), Some(Ok(b))) if a.full_eq(&b) => cx.probe("rfs.regular_same"),
+                _ => cx.probe("rfs.regular_differs_not_judged_here"),
+            }
+            cx.ev(false, format_args!("hash_file(real regular file, {} bytes) -> {}", data.len(), match &got {
+                Ok(r) => show(r),
+                Err(_) => "panic".to_string(),
+            }));
         }
     }
 }
@@ -660,6 +870,33 @@ pub fn generate(seed: u64) -> Vec<Op> {
             spec: FileSpec { open: Ok(()), meta: Ok(data.len() as u64), script: sc, scribble, sticky: true, tail: 0 },
         });
     }
+    // a reader that panics inside read() (contained by the caller), followed by
+    // ordinary executions: nothing may be carried over on this thread
+    if rng.chance(1, 3) {
+        let i = rng.usize_below(base.len() + 1);
+        let mut sc = base[..i].to_vec();
+        sc.push(REv::Panic);
+        if rng.chance(1, 3) {
+            ops.push(Op::File {
+                spec: FileSpec { open: Ok(()), meta: Ok(data.len() as u64), script: sc, scribble, sticky: true, tail: 0 },
+            });
+        } else {
+            ops.push(Op::Stream { script: sc, scribble, sticky: true, tail: 0 });
+        }
+        ops.push(Op::Stream { script: base.clone(), scribble, sticky: true, tail: 0 });
+        ops.push(Op::File {
+            spec: FileSpec { open: Ok(()), meta: Ok(data.len() as u64), script: base.clone(), scribble, sticky: true, tail: 0 },
+        });
+    }
+    // the real file system (1 workload in 10): objects that cannot be simulated
+    // away by a seam that the code under test might bypass
+    if rng.chance(1, 10) {
+        ops.push(Op::Real { kind: RealKind::Missing });
+        ops.push(Op::Real { kind: RealKind::Dir });
+        ops.push(Op::Real { kind: RealKind::Proc(rng.below(4) as u8) });
+        ops.push(Op::Real { kind: RealKind::Fifo { chunk: *rng.pick(&[1u32, 7, 777, 4096, 32768, 65536]) } });
+        ops.push(Op::Real { kind: RealKind::Regular });
+    }
     // swarm: which fault families this run enumerates
     let fam_read_err = rng.chance(9, 10);
     let fam_eof = rng.chance(2, 3);
@@ -806,6 +1043,7 @@ pub fn faults(ops: &[Op]) -> Vec<(String, u64)> {
                 }
                 REv::Eof => *m.entry("early_eof".into()).or_insert(0) += 1,
                 REv::Reenter(_) => *m.entry("reentrant_reader".into()).or_insert(0) += 1,
+                REv::Panic => *m.entry("reader_panic".into()).or_insert(0) += 1,
                 REv::Deliver(_) => {}
             }
         }
@@ -829,6 +1067,7 @@ pub fn faults(ops: &[Op]) -> Vec<(String, u64)> {
                 count_script(&mut m, &spec.script);
             }
             Op::Data(b) => cur_len = b.len() as u64,
+            Op::Real { kind } => *m.entry(format!("real_fs.{}", kind.name())).or_insert(0) += 1,
         }
     }
     m.into_iter().collect()
